@@ -67,11 +67,10 @@ class InteractiveParser:
         return self.copy()
 
     def copy(self, deepcopy_values=True):
-        return type(self)(
-            self.parser,
-            self.parser_state.copy(deepcopy_values=deepcopy_values),
-            copy(self.lexer_thread),
-        )
+        lexer_thread = copy(self.lexer_thread)
+        parser_state = self.parser_state.copy(deepcopy_values=deepcopy_values)
+        parser_state.lexer = lexer_thread
+        return type(self)(self.parser, parser_state, lexer_thread)
 
     def __eq__(self, other):
         if not isinstance(other, InteractiveParser):
